@@ -45,7 +45,9 @@ impl Resolver for Argument {
 }
 
 /// A resolver for all arguments passed to a function. Each argument will be
-/// resolved and then returned as a [`Value::List`]
+/// resolved and then returned as a [`Value::List`]. Arguments that an earlier
+/// extractor already consumed (for example the one [`This`](crate::extractors::This)
+/// takes when the function is not called as a method) are not resolved a second time.
 ///
 /// # Example
 /// ```skip
@@ -56,7 +58,7 @@ pub(crate) struct AllArguments;
 impl Resolver for AllArguments {
     fn resolve(&self, ctx: &FunctionContext) -> ResolveResult {
         let mut args = Vec::with_capacity(ctx.args.len());
-        for arg in ctx.args.iter() {
+        for arg in ctx.args.iter().skip(ctx.arg_idx) {
             args.push(Value::resolve(arg, ctx.ptx)?);
         }
         Ok(Value::List(args.into()))
